@@ -224,7 +224,11 @@ Fixpoint walk (cfg_features : N) (s : nstate) (msgs : list cmsg) (results : list
                   if ri_reply info then
                     if String.eqb r "ok" then
                       match sent with
-                      | x :: xs => and_then (is_response_to m x None) 4 (walk cfg_features s' ms rs cs xs)
+                      | x :: xs =>
+                          (* C07: the answer to GET_PROTOCOL_FEATURES always offers REPLY_ACK, whatever the device offers
+                             and whatever was negotiated before *)
+                          and_then (negb (m_code m =? 15) || hasb (ack_value x) PF_REPLY_ACK) 7
+                            (and_then (is_response_to m x None) 4 (walk cfg_features s' ms rs cs xs))
                       | [] => 4
                       end
                     else walk cfg_features s' ms rs cs sent
